@@ -77,6 +77,29 @@ impl Stage {
             _ => return Err(format!("unknown stage {}", name)),
         })
     }
+    /// the stage as a JSON document (a human-readable store)
+    pub fn json(&self) -> Result<String, String> {
+        let r = match self {
+            Stage::None => return Err("no stage".into()),
+            Stage::Requested(s) => serde_json::to_string(s),
+            Stage::Inactive(s) => serde_json::to_string(s),
+            Stage::Ready(s) => serde_json::to_string(s),
+            Stage::Started(s) => serde_json::to_string(s),
+            Stage::Locked(s) => serde_json::to_string(s),
+        };
+        r.map_err(|e| format!("json encode: {}", e))
+    }
+    pub fn from_json(name: &str, j: &str) -> Result<Stage, String> {
+        let e = |e: serde_json::Error| format!("json decode: {}", e);
+        Ok(match name {
+            "requested" => Stage::Requested(serde_json::from_str(j).map_err(e)?),
+            "inactive" => Stage::Inactive(serde_json::from_str(j).map_err(e)?),
+            "ready" => Stage::Ready(serde_json::from_str(j).map_err(e)?),
+            "started" => Stage::Started(serde_json::from_str(j).map_err(e)?),
+            "locked" => Stage::Locked(serde_json::from_str(j).map_err(e)?),
+            _ => return Err(format!("unknown stage {}", name)),
+        })
+    }
     pub fn copy(&self) -> Result<Stage, String> {
         Stage::from_bytes(self.name(), &self.bytes())
     }
@@ -158,6 +181,14 @@ impl Sess {
         let name = self.stage.name();
         let bytes = self.stage.bytes();
         self.stage = Stage::from_bytes(name, &bytes).map_err(|e| format!("restore of stage {} failed: {}", name, e))?;
+        Ok(())
+    }
+
+    /// The same through a JSON document.
+    pub fn restore_json(&mut self) -> Result<(), String> {
+        let name = self.stage.name();
+        let j = self.stage.json()?;
+        self.stage = Stage::from_json(name, &j).map_err(|e| format!("restore of stage {} from JSON failed: {}", name, e))?;
         Ok(())
     }
 
